@@ -111,13 +111,14 @@ Definition expand_string (s : string) : res (list Z) :=
   end.
 
 (* the argument as Python sees it: an int, a str, or a list of ints / strs *)
-Inductive elsel := SelInt (z : Z) | SelStr (s : string) | SelList (l : list (Z + string)).
+Inductive elsel := SelNone | SelInt (z : Z) | SelStr (s : string) | SelList (l : list (Z + string)).
 
 Definition item_str (x : Z + string) : string := match x with inl z => Z_to_string z | inr s => s end.
 Definition nonempty (s : string) : bool := match s with EmptyString => false | _ => true end.
 
 Definition expand_elements (sel : elsel) : res (list Z) :=
   match sel with
+  | SelNone => ok []
   | SelInt z => ok [z]
   | SelStr s => expand_string s
   | SelList l => expand_string (sjoin "," (filter nonempty (map item_str l)))
